@@ -216,7 +216,8 @@ def check_solution(ctx: Ctx, case, prob, refs, x, u, cost, tag, ubar=None, T=Non
     for b in range(Bn):
         r = refs[b]
         x0 = r.x0
-        tol_u, tol_x, _ = r.tols(None if ubar is None else ubar[b])
+        tol_u, tol_x, _ = r.tols(None if ubar is None else ubar[b], eps)
+        fl_v, fl_c = r.floor(None if ubar is None else ubar[b], eps)
         if not np.array_equal(xn[b, 0], x0):
             ctx.fail(case, f"start: {tag}: x[0] != x_init (item {b}: {xn[b, 0].tolist()} vs {x0.tolist()})")
             ok = False
@@ -224,8 +225,8 @@ def check_solution(ctx: Ctx, case, prob, refs, x, u, cost, tag, ubar=None, T=Non
         for t in range(T):
             res = xn[b, t + 1] - (r.A[t] @ xn[b, t] + r.B[t] @ un[b, t] + r.c[t])
             sc = np.abs(r.A[t]) @ np.abs(xn[b, t]) + np.abs(r.B[t]) @ np.abs(un[b, t]) + np.abs(r.c[t])
-            bad = np.abs(res) > 32 * eps * sc + 1e-300
-            stat("dynamics", (np.abs(res) / (32 * eps * sc + 1e-300)).max())
+            bad = np.abs(res) > 32 * eps * sc + C_TOL * fl_v + 1e-300
+            stat("dynamics", (np.abs(res) / (32 * eps * sc + C_TOL * fl_v + 1e-300)).max())
             if bad.any():
                 ctx.fail(case, f"dynamics: {tag}: x[{t + 1}] != A x[{t}] + B u[{t}] + c1 (item {b}, residual "
                                f"{np.abs(res).max():.3e}, allowed {float((32 * eps * sc).max()):.3e})")
@@ -233,8 +234,8 @@ def check_solution(ctx: Ctx, case, prob, refs, x, u, cost, tag, ubar=None, T=Non
                 break
         # reported cost
         J, Ja = r.cost(xn[b], un[b])
-        stat("cost", abs(J - cn[b]) / (16 * (T + ns + nc) * eps * Ja + 1e-300))
-        if abs(J - cn[b]) > 16 * (T + ns + nc) * eps * Ja + 1e-300:
+        stat("cost", abs(J - cn[b]) / (16 * (T + ns + nc) * eps * Ja + C_TOL * fl_c + 1e-300))
+        if abs(J - cn[b]) > 16 * (T + ns + nc) * eps * Ja + C_TOL * fl_c + 1e-300:
             ctx.fail(case, f"cost: {tag}: reported cost {cn[b]!r} != sum of stage costs {J!r} (item {b})")
             ok = False
         # optimality: stationarity + distance to the reference optimum + cost not above it
@@ -254,7 +255,7 @@ def check_solution(ctx: Ctx, case, prob, refs, x, u, cost, tag, ubar=None, T=Non
             ctx.fail(case, f"optimal: {tag}: returned inputs differ from the minimiser by {du:.3e} (item {b}); "
                            f"cost {J!r} vs optimum {r.J!r}")
             ok = False
-        elif J - r.J > C_TOL * eps * Ja + (C_TOL * eps) ** 2 * float(tol_u.reshape(-1) @ np.abs(r.H) @ tol_u.reshape(-1)) + 1e-300:
+        elif J - r.J > C_TOL * eps * Ja + C_TOL * fl_c + (C_TOL * eps) ** 2 * float(tol_u.reshape(-1) @ np.abs(r.H) @ tol_u.reshape(-1)) + 1e-300:
             ctx.fail(case, f"optimal: {tag}: cost {J!r} above the optimum {r.J!r} (item {b})")
             ok = False
     return ok
@@ -358,7 +359,7 @@ def run_lqr_case(ctx: Ctx, case, lines, metas):
                 ok &= good
                 if good and nsolve == 1:
                     ok &= perturb_test(ctx, case, refs, u, tag)
-                tl = [refs[b].tols(None if un is None else un[b]) for b in range(Bn)]
+                tl = [refs[b].tols(None if un is None else un[b], eps) for b in range(Bn)]
                 if first is None:
                     first = (x.detach().double().numpy(), u.detach().double().numpy(), cost.detach().double().numpy(), tl)
                     # gains of the same nominal for the model comparison (fresh LQR object: no effect on the history)
@@ -400,7 +401,7 @@ def compare_lqr_model(ctx: Ctx, reps, metas):
         _, Ja = r.cost(xm, um)
         eu = np.abs(ui - um) / (C_TOL * eps * tol_u + 1e-300)
         ex = np.abs(xi - xm) / (C_TOL * eps * tol_x + 1e-300)
-        ec = abs(ci - cm) / (C_TOL * eps * (Ja + float((_sg * tol_u).sum())) + 1e-300)
+        ec = abs(ci - cm) / (C_TOL * eps * (Ja + float((_sg * tol_u).sum())) + C_TOL * r.floor(None, eps)[1] + 1e-300)
         stat("model.u", eu.max()); stat("model.x", ex.max()); stat("model.cost", ec)
         if eu.max() > 1 or ex.max() > 1 or ec > 1:
             ctx.disagree("lqr", case, f"item {b}: implementation vs model: u {np.abs(ui - um).max():.3e} (ratio {eu.max():.2f}), "
@@ -697,8 +698,8 @@ def run_stepper(ctx: Ctx, n):
             else:
                 losses.append(base * rng.uniform(0.2, 2.0) * rng.choice([1, 1, -1]))
         st = P.utils.ReduceToBason(steps=steps, patience=pat, decreasing=dec, tol=tol)
-        st.patience_count = pc0
         st.reset()
+        st.patience_count = pc0
         flags = []
         import warnings
         with warnings.catch_warnings():
